@@ -66,7 +66,8 @@ ALL_MODS = ["aquacrop.timestep.run_single_timestep", "aquacrop.timestep.reset_in
     "cc_required_time adjust_CCx update_CCx_CDC HIadj_pre_anthesis HIadj_post_anthesis HIadj_pollination").split()]
 
 
-@harness("season_reset", modules=ALL_MODS, props=["C08", "C01", "C16"], configs=_configs, goals=["second-season-started"])
+@harness("season_reset", modules=ALL_MODS, props=["C08", "C01", "C16"], configs=_configs, goals=["second-season-started"],
+         max_decisions=0)      # any branch on left-over state is already a dependence: end the symbolic run there and let the replay decide
 def h_reset(ctx, cfg):
     if cfg["crop"] == "Wheat":
         s1, e2, s2 = "1979/10/01", "1981/06/30", "1980/10/01"
@@ -118,6 +119,16 @@ def h_reset(ctx, cfg):
         try:
             mm.run_model(num_steps=1, initialize_model=False)
             rows = _day_rows(mm, row)
+            # ... and the state handed to day 2 (a leak that shows only later in the season is visible here)
+            after = mm._init_cond
+            for k2 in sorted(vars(after)):
+                v2 = getattr(after, k2)
+                if isinstance(v2, (bool, np.bool_)):
+                    rows.append(float(v2))
+                elif isinstance(v2, (int, float, np.integer, np.floating, SF)):
+                    rows.append(v2)
+                elif isinstance(v2, np.ndarray) and v2.dtype != object:
+                    rows += [float(x) for x in v2.ravel()]
         finally:
             mm._init_cond = saved[0]
             mm._clock_struct.__dict__.update(saved[1])
@@ -127,7 +138,7 @@ def h_reset(ctx, cfg):
     try:
         rows = first_day(hav)
         suspected = False
-    except (symx.Abort, TypeError, ValueError, ZeroDivisionError) as e:
+    except (symx.Abort, symx.PathEnd, TypeError, ValueError, ZeroDivisionError) as e:
         rows = []; suspected = True
         ctx.note("touched", f"{type(e).__name__}: {e}")
         import sys, traceback
@@ -150,5 +161,5 @@ def h_reset(ctx, cfg):
             return float(a) == float(b) or (a != a and b != b)
         n_flux, n_stor = 16, len(m._outputs.water_storage[0])
         idx_skip = {0, 1, n_flux, n_flux + n_stor, n_flux + n_stor + 1}
-        ok = all(cmp(a, b, i) for i, (a, b) in enumerate(zip(rows, ref_rows)) if i not in idx_skip)
+        ok = all(cmp(a, b, i) for i, (a, b) in enumerate(zip(rows[:len(ref_rows)], ref_rows)) if i not in idx_skip)
         ctx.prove("C08:the first day of season 2 equals the first day of a single-season run started on that planting date", ok)
